@@ -98,16 +98,19 @@ fn is_zero<V: VL20>() {
     let z = <S as num_traits::Zero>::zero();
     goal("is_zero <=> every element equals zero", is(iz, and(a.iter().map(|x| eq(*x, z)).collect())));
 }
-fn overflowing<V: VL20>(which: usize) {
+fn overflowing<V: VL20>(which: usize, near: Option<bool>) {
     set_max_decisions(200);
+    if let Some(first) = near { explore_near(first, 1); }
     let (a, b) = (symv("a", V::N), symv("b", V::N));
     let (name, f, flag) = [("overflowing_add", "oadd", "ovf_add"), ("overflowing_sub", "osub", "ovf_sub"), ("overflowing_mul", "omul", "ovf_mul")][which];
     let (v, fl) = V::overflowing(which, V::of(&a), V::of(&b));
     eqv(&format!("{}: per element", name), &v.ent(), &(0..V::N).map(|i| app(f, &[a[i], b[i]])).collect::<Vec<_>>());
     goal(&format!("{}: flag = OR of the element flags", name), is(fl, or((0..V::N).map(|i| p(flag, &[a[i], b[i]])).collect())));
 }
-fn az_casts<V: VL20>(which: usize) {
+fn az_casts<V: VL20>(which: usize) { az_casts_near::<V>(which, None) }
+fn az_casts_near<V: VL20>(which: usize, near: Option<bool>) {
     set_max_decisions(200);
+    if let Some(first) = near { explore_near(first, 1); }
     let a = symv("a", V::N);
     let names = ["az_cast", "az_ccast", "az_scast", "az_wcast", "az_ocast", "az_ucast"];
     let f = names[which % 6];
@@ -230,9 +233,17 @@ pub fn list() -> Vec<Entry> {
         v.push((format!("c20/plain_lifts/{}", stringify!($V)), "C20", $tier, vec!["Wrapping*", "Saturating*", "Inv", "Euclid", "Zero", "One", "bytemuck::Zeroable"], Box::new(|| plain::<$V<S>>())));
         v.push((format!("c20/is_zero/{}", stringify!($V)), "C20", $tier, vec!["Zero::is_zero"], Box::new(|| is_zero::<$V<S>>())));
         if $ovf {
-            for w in 0..3usize { v.push((format!("c20/overflowing/{}/{}", w, stringify!($V)), "C20", $tier, vec!["Overflowing* lifts"], Box::new(move || overflowing::<$V<S>>(w)))); }
+            for w in 0..3usize { v.push((format!("c20/overflowing/{}/{}", w, stringify!($V)), "C20", $tier, vec!["Overflowing* lifts"], Box::new(move || overflowing::<$V<S>>(w, None)))); }
             v.push((format!("c20/az/overflowing_cast/{}", stringify!($V)), "C20", $tier, vec!["az::OverflowingCast"], Box::new(|| az_casts::<$V<S>>(4))));
             v.push((format!("c20/az/overflowing_as/{}", stringify!($V)), "C20", $tier, vec!["V::overflowing_as"], Box::new(|| az_casts::<$V<S>>(10))));
+        } else {
+            // wide vectors: the all-`first` flag pattern and the N single-deviation patterns (see explore_near)
+            for first in [true, false] {
+                let tag = if first { "true" } else { "false" };
+                for w in 0..3usize { v.push((format!("c20/overflowing_near_{}/{}/{}", tag, w, stringify!($V)), "C20", $tier, vec!["Overflowing* lifts"], Box::new(move || overflowing::<$V<S>>(w, Some(first))))); }
+                v.push((format!("c20/az/overflowing_cast_near_{}/{}", tag, stringify!($V)), "C20", $tier, vec!["az::OverflowingCast"], Box::new(move || az_casts_near::<$V<S>>(4, Some(first)))));
+                v.push((format!("c20/az/overflowing_as_near_{}/{}", tag, stringify!($V)), "C20", $tier, vec!["V::overflowing_as"], Box::new(move || az_casts_near::<$V<S>>(10, Some(first)))));
+            }
         }
         for w in [0usize, 1, 2, 3, 5, 6, 7, 8, 9, 11] { v.push((format!("c20/az/{}/{}", w, stringify!($V)), "C20", $tier, vec!["az::Cast", "CheckedCast", "SaturatingCast", "WrappingCast", "UnwrappedCast", "V::az/checked_as/..."], Box::new(move || az_casts::<$V<S>>(w)))); }
         for w in 0..5usize { v.push((format!("c20/approx/{}/{}", ["abs_diff_eq", "relative_eq", "ulps_eq", "abs_diff_ne", "relative_ne"][w], stringify!($V)), "C20", $tier, vec!["AbsDiffEq", "RelativeEq", "UlpsEq"], Box::new(move || approx_vec::<$V<S>>(w)))); }
